@@ -17,8 +17,22 @@
 #define VG_MAGIC 0x5645524946475244ULL
 typedef struct { uint64_t magic; size_t size; size_t maplen; void *map; } vg_hdr;
 
+/* Allocation-failure injection (C19, family allocfail): VERIF_FAIL_AT="<k>:<token>" makes the k-th allocation of this translation unit
+ * after the variable last changed return NULL (the token only serves to restart the count); VERIF_FAILED=1 is set in the C environment
+ * when that happened, so the driver can tell whether the call under test had a k-th allocation at all. */
+static inline int vg_inject(void) {
+    static char last[40];
+    static long cnt;
+    const char *e = getenv("VERIF_FAIL_AT");
+    if (!e || !*e) { last[0] = 0; return 0; }
+    if (strncmp(e, last, 39)) { strncpy(last, e, 39); last[39] = 0; cnt = 0; }
+    if (++cnt == atol(e)) { setenv("VERIF_FAILED", "1", 1); return 1; }
+    return 0;
+}
+
 static inline void *vg_malloc(size_t n) {
     size_t pg = 4096;
+    if (vg_inject()) return NULL;
     size_t n8 = (n + 7) & ~(size_t)7;
     if (n8 == 0) n8 = 8;
     /* VERIF_GUARD_SLACK=<bytes>: accessible bytes between the block and the guard page (default 0).  The optimised kernels of the
